@@ -5,6 +5,7 @@ open Neutrino.Subs
 #print axioms C11_complete_drained
 #print axioms C11_complete
 #print axioms C11_isolation
+#print axioms C11_registration_window
 #print axioms C11_cancel_closes
 #print axioms C11_stop_closes
 #print axioms C11_closed_silent
